@@ -62,7 +62,7 @@ def _make_tuplecoord_spec(typ: Type[TupleCoord], struct_fmt: str,
         # Mostly for Quaternion since we don't actually need to send W.
         def _packer(x):
             if isinstance(x, TupleCoord):
-                x = x.data()
+                x = x.data(needed_elems)
             return struct_obj.pack(*x[:needed_elems])
     return lambda x: typ(*struct_obj.unpack(x)), _packer
 
@@ -77,7 +77,7 @@ def _make_llsd_tuplecoord_spec(typ: Type[TupleCoord], needed_elems: Optional[int
         # Mostly for Quaternion since we don't actually need to send W.
         def _packer(x):
             if isinstance(x, TupleCoord):
-                x = x.data()
+                x = x.data(needed_elems)
             return list(x[:needed_elems])
     return lambda x: typ(*x), _packer
 
